@@ -222,7 +222,7 @@ EOF2
 fi
 
 # ---- 3b. Miri -----------------------------------------------------------------------------
-if [ "$TIER" = "thorough" ]; then MSEEDS=160; MCASES=4; RATES="0.05 0.3"; else MSEEDS=8; MCASES=2; RATES="0.1"; fi
+if [ "$TIER" = "thorough" ]; then MSEEDS=160; MCASES=4; RATES="0.05 0.3"; else MSEEDS=8; MCASES=3; RATES="0.1"; fi
 MIRI_RESULT="clean"; MIRI_RUNS=0
 for rate in $RATES; do
   MIRILOG="$TARGET/miri-$rate.log"
